@@ -456,7 +456,8 @@ func (sh *SessionHandler) rpcSectorRoots(s *session, log *zap.Logger) (contracts
 	start := req.RootOffset
 	end := req.RootOffset + req.NumRoots
 
-	if end > contractSectors {
+	// RootOffset+NumRoots may wrap around; an empty range has no Merkle proof
+	if req.NumRoots == 0 || req.RootOffset > contractSectors || req.NumRoots > contractSectors-req.RootOffset {
 		err := fmt.Errorf("invalid sector range: %d-%d, contract has %d sectors", start, end, contractSectors)
 		s.t.WriteResponseErr(err)
 		return contracts.Usage{}, err
